@@ -1,3 +1,12 @@
+/- C06 (task Y): VALIDITY (`ctValid`, the model of `Ciphertext::is_valid_for`) is preserved by every modelled operation.
+   Y1  `ctValid` = size 0 or 2..16 ∧ all polynomials canonical ∧ scale flags ∧ correction factor in range (`ctValid_iff`); for non-empty
+       ciphertexts `ctValid ↔ CtCanon ∧ scale condition`; the only difference to `CtCanon` is the empty ciphertext.
+   Y2  for negate, add / sub (plain and balanced), dyadic / BGV / plain multiply, the three scheme-specific modulus switches, the drop,
+       switchKey, relinearize, applyGalois: total on valid operands in the prescribed representation, result valid at the result
+       level — including operands of size 0; for BGV the exact condition on the correction factors, with witnesses that it is needed.
+   Y3  refusals on representation / scheme / level-count / size mismatches (`evaluator_refusals`), and what the model does not check.
+   Y4  size law n1 + n2 − 1 of the products; the model does NOT refuse oversize results (the code does, through `resize`).
+   Helper names carry the prefix `c06y_`; the user-facing theorems are at the end under "Property theorems". -/
 import Heathcliff.Proofs.C02V
 import Heathcliff.Proofs.C05U
 import Heathcliff.Proofs.C04T
@@ -279,6 +288,157 @@ theorem c06y_scale_ntt {l : Level} {f e : Nat} {c r : Ct} (h : c02v_scale l f c 
   · cases h
   · simp only [pure, Except.pure, Except.ok.injEq] at h
     subst h; rfl
+
+/-! ## key switching: the ciphertext level inside the key level -/
+
+/-- the ciphertext level `l` consists of the first `l.size` moduli of the key level `kl` (same degree) -/
+structure c06y_KeyLevelOf (kl : KeyLevel) (l : Level) : Prop where
+  n : kl.n = l.n
+  q : ∀ j, j < l.size → (kl.m j).value = (l.q j).value
+
+theorem c06y_canon_to_ks {kl : KeyLevel} {l : Level} (hk : c06y_KeyLevelOf kl l) {p : RnsPoly} (hp : RnsCanon l p) :
+    c04t_Canon kl l.size p := by
+  intro j hj
+  rw [hk.n, hk.q j hj]
+  exact hp.2 j hj
+
+/-- the frame of `moddown_spec` / `moddown_spec_bgv` gives canonicity of the updated ciphertext at the level `l` -/
+theorem c06y_ks_frame {kl : KeyLevel} {l : Level} (hk : c06y_KeyLevelOf kl l) (hpos : ∀ j, j < l.size → 0 < (kl.m j).value)
+    {ct r : Ct} {kcc : Nat} (hc : c05u_CtCanon l ct) (hsz : r.polys.size = ct.polys.size)
+    (hrest : ∀ idx, kcc ≤ idx → r.polys.getD idx #[] = ct.polys.getD idx #[])
+    (hnew : ∀ k, k < kcc → k < ct.polys.size → (r.polys.getD k #[]).size = l.size ∧ ∀ j, j < l.size →
+      ((r.polys.getD k #[]).getD j #[]).size = kl.n ∧
+      ∀ i, i < kl.n → ∃ x, ((r.polys.getD k #[]).getD j #[]).getD i 0 = x % (kl.m j).value) :
+    c05u_CtCanon l r := by
+  intro k hk'
+  rw [hsz] at hk'
+  by_cases hkk : k < kcc
+  · obtain ⟨h1, h2⟩ := hnew k hkk hk'
+    refine ⟨h1, fun j hj => ?_⟩
+    obtain ⟨h3, h4⟩ := h2 j hj
+    refine ⟨by rw [h3, hk.n], fun i hi => ?_⟩
+    obtain ⟨x, hx⟩ := h4 i (by rw [hk.n]; exact hi)
+    rw [hx, ← hk.q j hj]
+    exact Nat.mod_lt _ (hpos j hj)
+  · rw [hrest k (by omega)]
+    exact hc k hk'
+
+theorem c06y_extract_getD {α : Type} (a : Array α) (d : α) {m k : Nat} (hm : m ≤ a.size) (hk : k < m) :
+    (a.extract 0 m).getD k d = a.getD k d := by
+  simp [Array.getD, show k < a.size by omega, hk, Nat.min_eq_left hm]
+
+/-- the ciphertext-independent part of `c04t_KSInput`: key level and digit count -/
+structure c06y_KLOK (kl : KeyLevel) (dsz : Nat) : Prop where
+  hkl : kl.WF
+  hsz : 2 ≤ kl.ms.size
+  hd : dsz + 1 ≤ kl.ms.size
+  hov : ∀ i, i ≤ dsz →
+    dsz * (4 * (kl.m (c04t_keyIndex kl dsz i)).value * (kl.m (c04t_keyIndex kl dsz i)).value) < 2^128
+  hinv : c04t_InvP kl dsz
+
+/-- the key-only part of `c04t_KSInput`: enough digits, at most two key components (the code always has two), canonical residues -/
+structure c06y_KeyOK (kl : KeyLevel) (dsz : Nat) (key : KSKey) : Prop where
+  hks : dsz ≤ key.size
+  kcc : (key.getD 0 #[]).size ≤ 2
+  hkey : ∀ i, i ≤ dsz → c04t_KeyCanonAt kl dsz (key.getD 0 #[]).size key (c04t_keyIndex kl dsz i)
+
+/-- `c04t_KSInput` assembled from its independent parts and the canonicity of ciphertext and target -/
+theorem c06y_ksinput {kl : KeyLevel} {l : Level} (hk : c06y_KeyLevelOf kl l) (ho : c06y_KLOK kl l.size) {key : KSKey}
+    (hkey : c06y_KeyOK kl l.size key) {ct : Ct} (hc : c05u_CtCanon l ct) (h2 : 2 ≤ ct.polys.size) {target : RnsPoly}
+    (ht : RnsCanon l target) : c04t_KSInput kl l.size ct target key :=
+  ⟨ho.hkl, ho.hsz, ho.hd, hkey.hks, c06y_canon_to_ks hk ht, hkey.hkey, ho.hov,
+    fun k hk' => c06y_canon_to_ks hk (hc k (by have := hkey.kcc; omega)), ho.hinv⟩
+
+/-! ## Galois automorphisms keep polynomials canonical -/
+
+theorem c06y_fold_set_inv (B : Nat) (idx v : Nat → Nat) :
+    ∀ (xs : List Nat), (∀ i ∈ xs, v i < B) → ∀ (init : Array Nat), (∀ j, j < init.size → init.getD j 0 < B) →
+      (xs.foldl (fun (res : Array Nat) i => res.setIfInBounds (idx i) (v i)) init).size = init.size ∧
+      ∀ j, j < init.size → (xs.foldl (fun (res : Array Nat) i => res.setIfInBounds (idx i) (v i)) init).getD j 0 < B
+  | [], _, init, hi => ⟨rfl, hi⟩
+  | x :: xs, hv, init, hi => by
+    have hstep : ∀ j, j < (init.setIfInBounds (idx x) (v x)).size → (init.setIfInBounds (idx x) (v x)).getD j 0 < B := by
+      intro j hj
+      have hj' : j < init.size := by simpa using hj
+      by_cases he : idx x = j
+      · subst he
+        rw [Array.getD_eq_getD_getElem?, Array.getElem?_setIfInBounds_self_of_lt hj']
+        exact hv x (by simp)
+      · rw [Array.getD_eq_getD_getElem?, Array.getElem?_setIfInBounds_ne he, ← Array.getD_eq_getD_getElem?]
+        exact hi j hj'
+    obtain ⟨h1, h2⟩ := c06y_fold_set_inv B idx v xs (fun i hi' => hv i (by simp [hi'])) _ hstep
+    rw [List.foldl_cons]
+    exact ⟨by rw [h1]; simp, fun j hj => h2 j (by simpa using hj)⟩
+
+theorem c06y_galoisApply_canon {k g : Nat} {m : Modulus} (hm : m.WF) {a : Array Nat}
+    (ha : ∀ i, i < 2^k → a.getD i 0 < m.value) :
+    ∃ r, galoisApply k a g m = .ok r ∧ r.size = 2^k ∧ ∀ i, i < 2^k → r.getD i 0 < m.value := by
+  have h2 := hm.two_le
+  rw [c04m_apply_eq, c04m_foldlM_ok hm ha _ (fun i hi => List.mem_range.mp hi)]
+  obtain ⟨h1, h3⟩ := c06y_fold_set_inv m.value (fun i => (i * g) % 2^k) (c04m_val k g m a) (List.range (2^k))
+    (fun i hi => by
+      have hi := List.mem_range.mp hi
+      unfold c04m_val
+      split
+      · exact Nat.mod_lt _ (by omega)
+      · exact ha i hi)
+    (Array.replicate (2^k) 0) (fun j hj => by
+      have hj' : j < 2^k := by simpa using hj
+      simp [Array.getD, hj']; omega)
+  exact ⟨_, rfl, by rw [h1]; simp, fun i hi => h3 i (by simpa using hi)⟩
+
+theorem c06y_galoisApplyNtt_canon {k g B : Nat} (hg : g % 2 = 1) {a : Array Nat} (ha : ∀ i, i < 2^k → a.getD i 0 < B) :
+    (galoisApplyNtt k a g).size = 2^k ∧ ∀ i, i < 2^k → (galoisApplyNtt k a g).getD i 0 < B := by
+  have hsz : (galoisTableNtt k g).size = 2^k := by simp [galoisTableNtt]
+  unfold galoisApplyNtt
+  refine ⟨by rw [Array.size_map, hsz], fun i hi => ?_⟩
+  rw [c10i_getD_map_lt _ _ (by rw [hsz]; exact hi)]
+  exact ha _ (galoisTable_spec hg hi).2
+
+theorem c06y_foldlM_push_exists {β : Type} (n : Nat) (F : Nat → R β) (P : Nat → β → Prop) (d : β)
+    (h : ∀ i, i < n → ∃ y, F i = .ok y ∧ P i y) :
+    ∃ r : Array β, (List.range n).foldlM (fun acc i => do let y ← F i; pure (acc.push y)) #[] = .ok r ∧ r.size = n ∧
+      ∀ i, i < n → P i (r.getD i d) := by
+  let G : Nat → β := fun i => match F i with | .ok y => y | .error _ => d
+  have hG : ∀ i, i < n → F i = .ok (G i) ∧ P i (G i) := by
+    intro i hi
+    obtain ⟨y, hy, hp⟩ := h i hi
+    have : G i = y := by show (match F i with | .ok y => y | .error _ => d) = y; rw [hy]
+    rw [this]; exact ⟨hy, hp⟩
+  refine ⟨_, c01o_foldlM_push (List.range n) F G (fun i hi => (hG i (List.mem_range.mp hi)).1) #[], by simp, fun i hi => ?_⟩
+  rw [Array.empty_append, getD_rangeMap' _ _ _ hi]
+  exact (hG i hi).2
+
+/-- the component-wise Galois step of `applyGalois` maps canonical polynomials to canonical polynomials -/
+theorem c06y_galois_poly {l : Level} (hl : l.WF) (ntt : Bool) {g : Nat} (hg : g % 2 = 1) {p : RnsPoly} (hp : RnsCanon l p) :
+    ∃ r, (List.range l.size).foldlM (fun (acc : RnsPoly) i =>
+        (if ntt then pure (galoisApplyNtt l.k (p.getD i #[]) g) else galoisApply l.k (p.getD i #[]) g (l.q i)) >>=
+          fun c => pure (acc.push c)) #[] = .ok r ∧ RnsCanon l r := by
+  obtain ⟨r, hr, sr, pr⟩ := c06y_foldlM_push_exists l.size
+    (fun i => if ntt then pure (galoisApplyNtt l.k (p.getD i #[]) g) else galoisApply l.k (p.getD i #[]) g (l.q i))
+    (fun i c => c.size = l.n ∧ ∀ j, j < l.n → c.getD j 0 < (l.q i).value) #[] (fun i hi => by
+      have hc := hp.2 i hi
+      have hn := hl.npow
+      cases ntt
+      · obtain ⟨r, h1, h2, h3⟩ := c06y_galoisApply_canon (k := l.k) (g := g) ((c01o_level_comp hl hi).2.2.2)
+          (a := p.getD i #[]) (fun j hj => hc.2 j (by rw [hn]; exact hj))
+        exact ⟨r, by simpa using h1, by rw [h2, hn], fun j hj => h3 j (by rw [← hn]; exact hj)⟩
+      · obtain ⟨h2, h3⟩ := c06y_galoisApplyNtt_canon (k := l.k) (B := (l.q i).value) hg (a := p.getD i #[])
+          (fun j hj => hc.2 j (by rw [hn]; exact hj))
+        exact ⟨_, rfl, by rw [h2, hn], fun j hj => h3 j (by rw [← hn]; exact hj)⟩)
+  exact ⟨r, hr, sr, pr⟩
+
+/-- the same, in the shape the `do` block of `applyGalois` elaborates to -/
+theorem c06y_galois_poly' {l : Level} (hl : l.WF) (ntt : Bool) {g : Nat} (hg : g % 2 = 1) {p : RnsPoly} (hp : RnsCanon l p) :
+    ∃ r, (List.range l.size).foldlM (fun (acc : RnsPoly) i =>
+        if ntt = true then (do let c ← (pure (galoisApplyNtt l.k (p.getD i #[]) g) : R (Array Nat)); pure (acc.push c))
+        else (do let c ← galoisApply l.k (p.getD i #[]) g (l.q i); pure (acc.push c))) #[] = .ok r ∧ RnsCanon l r := by
+  obtain ⟨r, hr, cr⟩ := c06y_galois_poly hl ntt hg hp
+  refine ⟨r, ?_, cr⟩
+  rw [← hr]
+  congr 1
+  funext acc i
+  split <;> rfl
 
 /-! ## Property theorems -/
 
@@ -808,7 +968,7 @@ theorem ctTranslateBalanced_refuse_ntt (l : Level) (a b : Ct) (sub : Bool) (h : 
           exact ⟨_, rfl⟩
 
 /-- Y3: `bfv_multiply` refuses NTT-form operands -/
-theorem bfvMultiply_refuse_ntt (l : Level) (bsk : Array NTTTables) (a b : Ct) (h : a.ntt = true ∨ b.ntt = true) :
+theorem c06y_bfvMultiply_refuse_ntt (l : Level) (bsk : Array NTTTables) (a b : Ct) (h : a.ntt = true ∨ b.ntt = true) :
     bfvMultiply l bsk a b = .error .refused := by
   unfold bfvMultiply
   rw [if_pos h]
@@ -832,7 +992,7 @@ theorem evaluator_refusals (l : Level) (a b : Ct) (sub : Bool) (p : RnsPoly) :
     (l.scheme = .ckks → a.ntt = false → modSwitchDropNext l a = .error .refused) :=
   ⟨ctTranslate_refuse_ntt l a b sub, ctTranslateBalanced_refuse_ntt l a b sub, ctMultiplyDyadic_refuse l a b,
     bgvMultiply_refuse l a b, ctMultiplyDyadic_refuse_empty l a b, ctMultiplyPlainNtt_refuse l a p,
-    fun bsk => bfvMultiply_refuse_ntt l bsk a b,
+    fun bsk => c06y_bfvMultiply_refuse_ntt l bsk a b,
     (modSwitchScaleNext_refusals a).1, (modSwitchScaleNext_refusals a).2.1, (modSwitchScaleNext_refusals a).2.2.1,
     (modSwitchScaleNext_refusals a).2.2.2, (modSwitchDropNext_refusals a).1, (modSwitchDropNext_refusals a).2⟩
 
@@ -850,5 +1010,268 @@ theorem ctNegate_does_not_validate {l : Level} (hq : c02v_QsWF l) (hs : l.scheme
     · exact absurd hc ((c06y_cfOk_bgv hs _).mp (c06y_valid_parts h).cf).1
   obtain ⟨r, hr, _, _, _, fr⟩ := c06y_negate_core (a := { a with cf := 0 }) hq (c06y_valid_parts ha).canon
   exact ⟨hbad _ rfl, r, hr, hbad r fr⟩
+
+/-! ### key switching -/
+
+/-- Y2 `switch_key_inplace`: for inputs satisfying the bundle `c04t_KSInput` of C04T (for BGV also `c04t_BgvData`), a valid ciphertext
+    in the representation its scheme prescribes is switched to a VALID ciphertext of the same level (same size, representation,
+    correction factor).  The ciphertext level is the first `l.size` moduli of the key level (`c06y_KeyLevelOf`). -/
+theorem switchKey_valid {kl : KeyLevel} {l : Level} (hk : c06y_KeyLevelOf kl l) {ct : Ct} {target : RnsPoly} {key : KSKey}
+    {s1 s2 : Bool} (hv : ctValid l ct s1 s2 = true) (h : c04t_KSInput kl l.size ct target key)
+    (hb : l.scheme = .bgv → c04t_BgvData kl) (hrep : ct.ntt = true ↔ l.scheme ≠ .bfv) :
+    ∃ r, switchKey kl l.scheme l.size ct target key = .ok r ∧ ctValid l r s1 s2 = true ∧ r.polys.size = ct.polys.size ∧
+      r.ntt = ct.ntt ∧ r.cf = ct.cf := by
+  have v := c06y_valid_parts hv
+  have hpos : ∀ j, j < l.size → 0 < (kl.m j).value := fun j hj => by
+    have := (c04t_kl_comp h.hkl (show j < kl.ms.size by have := h.hd; omega)).2.2.2.two_le
+    omega
+  have fin : ∀ r : Ct, r.polys.size = ct.polys.size → r.cf = ct.cf → c05u_CtCanon l r → ctValid l r s1 s2 = true :=
+    fun r sr fr cr => c06y_valid_mk (by rw [sr]; exact v.size) cr v.scale (by rw [fr]; exact v.cf)
+  cases hs : l.scheme
+  · have hn : ct.ntt = false := by
+      cases hc : ct.ntt
+      · rfl
+      · exact absurd hs (hrep.mp hc)
+    obtain ⟨r, hr, nr, fr, sr, hrest, hnew⟩ := moddown_spec (scheme := .bfv) h (Or.inl ⟨rfl, hn⟩)
+    refine ⟨r, hr, fin r sr fr (c06y_ks_frame hk hpos v.canon sr hrest (fun k hk1 hk2 => ?_)), sr, nr, fr⟩
+    obtain ⟨a, b⟩ := hnew k hk1 hk2
+    exact ⟨a, fun j hj => let ⟨δ, _, _, sz, vl, _⟩ := b j hj; ⟨sz, fun i hi => ⟨_, vl i hi⟩⟩⟩
+  · have hn : ct.ntt = true := hrep.mpr (by rw [hs]; decide)
+    obtain ⟨r, hr, nr, fr, sr, hrest, hnew⟩ := moddown_spec (scheme := .ckks) h (Or.inr ⟨rfl, hn⟩)
+    refine ⟨r, hr, fin r sr fr (c06y_ks_frame hk hpos v.canon sr hrest (fun k hk1 hk2 => ?_)), sr, nr, fr⟩
+    obtain ⟨a, b⟩ := hnew k hk1 hk2
+    exact ⟨a, fun j hj => let ⟨δ, _, _, sz, vl, _⟩ := b j hj; ⟨sz, fun i hi => ⟨_, vl i hi⟩⟩⟩
+  · have hn : ct.ntt = true := hrep.mpr (by rw [hs]; decide)
+    obtain ⟨r, hr, nr, fr, sr, hrest, hnew⟩ := moddown_spec_bgv h (hb hs) hn
+    refine ⟨r, hr, fin r sr fr (c06y_ks_frame hk hpos v.canon sr hrest (fun k hk1 hk2 => ?_)), sr, nr, fr⟩
+    obtain ⟨a, b⟩ := hnew k hk1 hk2
+    exact ⟨a, fun j hj => let ⟨δ, _, _, sz, vl, _⟩ := b j hj; ⟨sz, fun i hi => ⟨_, vl i hi⟩⟩⟩
+
+theorem switchKey_preserves_valid {kl : KeyLevel} {l : Level} (hk : c06y_KeyLevelOf kl l) {ct r : Ct} {target : RnsPoly}
+    {key : KSKey} {s1 s2 : Bool} (hv : ctValid l ct s1 s2 = true) (h : c04t_KSInput kl l.size ct target key)
+    (hb : l.scheme = .bgv → c04t_BgvData kl) (hr : switchKey kl l.scheme l.size ct target key = .ok r) :
+    ctValid l r s1 s2 = true := by
+  have hrep : ct.ntt = true ↔ l.scheme ≠ .bfv := by
+    constructor
+    · intro hn hs
+      rw [hs, switchKey_refuses_bfv_ntt kl l.size ct target key hn] at hr; cases hr
+    · intro hs
+      by_contra hn
+      rw [switchKey_refuses_coeff_form kl l.scheme hs l.size ct target key (by simpa using hn)] at hr; cases hr
+  obtain ⟨r', hr', hv', _⟩ := switchKey_valid hk hv h hb hrep
+  rw [hr] at hr'; cases hr'; exact hv'
+
+/-- Y2 `relinearize` (any size 2..16, enough fuel): with a good key (`c06y_KeyOK`) for every power s^m, 2 ≤ m < size, a valid
+    ciphertext (in the prescribed representation if there is anything to switch) is relinearized to a VALID size-2 ciphertext -/
+theorem relinearize_valid {kl : KeyLevel} {l : Level} (hk : c06y_KeyLevelOf kl l) (ho : c06y_KLOK kl l.size)
+    (hb : l.scheme = .bgv → c04t_BgvData kl) (keys : Nat → Option KSKey) {s1 s2 : Bool} :
+    ∀ (fuel : Nat) (ct : Ct), ctValid l ct s1 s2 = true → 2 ≤ ct.polys.size → ct.polys.size ≤ fuel + 1 →
+      (2 < ct.polys.size → (ct.ntt = true ↔ l.scheme ≠ .bfv)) →
+      (∀ m, 2 ≤ m → m < ct.polys.size → ∃ key, keys m = some key ∧ c06y_KeyOK kl l.size key) →
+      ∃ r, relinearize kl l.scheme l.size keys fuel ct = .ok r ∧ ctValid l r s1 s2 = true ∧ r.polys.size = 2 ∧
+        r.ntt = ct.ntt ∧ r.cf = ct.cf := by
+  intro fuel
+  induction fuel with
+  | zero => intro ct _ h2 hf; omega
+  | succ fuel ih =>
+    intro ct hv h2 hf hrep hkeys
+    by_cases hsz : ct.polys.size = 2
+    · exact ⟨ct, relinearize_size2 kl l.scheme l.size keys fuel ct hsz, hv, hsz, rfl, rfl⟩
+    · have h3 : 2 < ct.polys.size := by omega
+      have v := c06y_valid_parts hv
+      obtain ⟨key, hkm, hkok⟩ := hkeys (ct.polys.size - 1) (by omega) (by omega)
+      have hin := c06y_ksinput hk ho hkok v.canon h2 (v.canon (ct.polys.size - 1) (by omega))
+      obtain ⟨ct', hs, hv', sr, nr, fr⟩ := switchKey_valid hk hv hin hb (hrep h3)
+      have v' := c06y_valid_parts hv'
+      rw [c04t_relin_step kl l.scheme l.size keys fuel ct h3 hkm hs]
+      have hsz' : ({ ct' with polys := ct'.polys.extract 0 (ct.polys.size - 1) } : Ct).polys.size = ct.polys.size - 1 := by
+        simp only [Array.size_extract, sr]; omega
+      have hvv : ctValid l { ct' with polys := ct'.polys.extract 0 (ct.polys.size - 1) } s1 s2 = true := by
+        refine c06y_valid_mk (by rw [hsz']; have := v.size; omega) (fun k hk' => ?_) v'.scale v'.cf
+        rw [hsz'] at hk'
+        show RnsCanon l ((ct'.polys.extract 0 (ct.polys.size - 1)).getD k #[])
+        rw [c06y_extract_getD _ _ (by rw [sr]; omega) hk']
+        exact v'.canon k (by rw [sr]; omega)
+      obtain ⟨r, hr, hvr, szr, nrr, frr⟩ := ih _ hvv (by rw [hsz']; omega) (by rw [hsz']; omega)
+        (fun _ => by show ct'.ntt = true ↔ _; rw [nr]; exact hrep h3)
+        (fun m hm1 hm2 => hkeys m hm1 (by rw [hsz'] at hm2; omega))
+      exact ⟨r, hr, hvr, szr, by rw [nrr]; exact nr, by rw [frr]; exact fr⟩
+
+/-- Y2 `apply_galois_inplace` (size 2, odd element ≤ 2N): the Galois images of the two polynomials are canonical, and the key switch of
+    (σ(c0), 0) with target σ(c1) returns a VALID ciphertext -/
+theorem applyGalois_valid {kl : KeyLevel} {l : Level} (hl : l.WF) (hk : c06y_KeyLevelOf kl l) (ho : c06y_KLOK kl l.size)
+    (hb : l.scheme = .bgv → c04t_BgvData kl) {key : KSKey} (hkey : c06y_KeyOK kl l.size key) {ct : Ct} {s1 s2 : Bool}
+    (hv : ctValid l ct s1 s2 = true) (hsz : ct.polys.size = 2) (hrep : ct.ntt = true ↔ l.scheme ≠ .bfv) {g : Nat}
+    (hg : g % 2 = 1) (hg2 : g ≤ 2 * l.n) :
+    ∃ r, applyGalois kl l l.scheme ct g key = .ok r ∧ ctValid l r s1 s2 = true ∧ r.polys.size = 2 ∧ r.ntt = ct.ntt ∧
+      r.cf = ct.cf := by
+  have v := c06y_valid_parts hv
+  obtain ⟨c0, h0, cc0⟩ := c06y_galois_poly' hl ct.ntt hg (v.canon 0 (by omega))
+  obtain ⟨c1, h1, cc1⟩ := c06y_galois_poly' hl ct.ntt hg (v.canon 1 (by omega))
+  have hcc : c05u_CtCanon l { polys := #[c0, rnsZero l], ntt := ct.ntt, cf := ct.cf } := by
+    intro k hk'
+    have hk2 : k < 2 := hk'
+    interval_cases k
+    · exact cc0
+    · exact (c02v_rnsZero_spec (c02v_qsWF_of_levelWF hl)).1
+  have hv' : ctValid l { polys := #[c0, rnsZero l], ntt := ct.ntt, cf := ct.cf } s1 s2 = true :=
+    c06y_valid_mk (Or.inr ⟨Nat.le_refl 2, (by decide : 2 ≤ 16)⟩) hcc v.scale v.cf
+  have hin := c06y_ksinput hk ho hkey hcc (Nat.le_refl 2) cc1
+  obtain ⟨r, hr, hvr, sr, nr, fr⟩ := switchKey_valid hk hv' hin hb hrep
+  refine ⟨r, ?_, hvr, sr, nr, fr⟩
+  unfold applyGalois
+  simp only []
+  rw [if_neg (by omega), if_neg (by omega), h0, h1]
+  exact hr
+
+/-! ### non-vacuity of the key-switching bundles: key level {97, P = 113} of `Proofs/NonVac.lean`, ciphertext level {97} -/
+
+theorem c06y_nv_keyLevelOf (s : Scheme) : c06y_KeyLevelOf nv_kl (c06y_nvL1 s) :=
+  ⟨rfl, fun j hj => by have hj' : j < 1 := hj; interval_cases j; rfl⟩
+
+theorem c06y_nv_klok : c06y_KLOK nv_kl 1 :=
+  ⟨⟨nv_kl_wf_fields.1, nv_kl_wf_fields.2⟩, nv_ksinput_fields.1, nv_ksinput_fields.2.1, nv_ksinput_fields.2.2.2.2.2.1,
+    nv_ksinput_fields.2.2.2.2.2.2.2⟩
+
+theorem c06y_nv_keyok : c06y_KeyOK nv_kl 1 nv_kskey :=
+  ⟨nv_ksinput_fields.2.2.1, by decide, nv_ksinput_fields.2.2.2.2.1⟩
+
+/-- a size-3 coefficient-form ciphertext at the level {97} -/
+def c06y_nvCt3 : Ct := ⟨#[#[#[69, 3, 49, 39]], #[#[0, 0, 0, 0]], #[#[73, 12, 45, 82]]], false, 1⟩
+
+theorem c06y_nvCt3_valid : ctValid (c06y_nvL1 .bfv) c06y_nvCt3 true false = true := by
+  refine c06y_valid_mk (Or.inr ⟨by decide, by decide⟩) (fun k hk => ?_) (rfl : true = true) (rfl : (1 : Nat) = 1)
+  have hk' : k < 3 := hk
+  interval_cases k <;> (unfold RnsCanon; decide)
+
+example : ∃ r, relinearize nv_kl .bfv 1 (fun m => if m = 2 then some nv_kskey else none) 2 c06y_nvCt3 = .ok r ∧
+    ctValid (c06y_nvL1 .bfv) r true false = true ∧ r.polys.size = 2 :=
+  let ⟨r, h, v, sz, _⟩ := relinearize_valid (c06y_nv_keyLevelOf .bfv) c06y_nv_klok (fun h => Scheme.noConfusion h)
+    (fun m => if m = 2 then some nv_kskey else none) 2 c06y_nvCt3 c06y_nvCt3_valid (by decide) (by decide)
+    (fun _ => ⟨fun h => Bool.noConfusion h, fun h => absurd rfl h⟩)
+    (fun m h1 h2 => by
+      have h3 : m < 3 := h2
+      have : m = 2 := by omega
+      subst this
+      exact ⟨nv_kskey, rfl, c06y_nv_keyok⟩)
+  ⟨r, h, v, sz⟩
+
+theorem c06y_nv_bgvData : c04t_BgvData nv_kl := ⟨nv_m17_wf, by decide, by decide⟩
+theorem c06y_nvL1_wf (s : Scheme) : (c06y_nvL1 s).WF := ⟨nv_level1_wf.npow, nv_level1_wf.tsize, nv_level1_wf.twf⟩
+
+/-- a size-2 NTT-form BGV ciphertext at the level {97} with correction factor 3 -/
+def c06y_nvCt2 : Ct := ⟨#[#[#[69, 3, 49, 39]], #[#[73, 12, 45, 82]]], true, 3⟩
+
+theorem c06y_nvCt2_valid : ctValid (c06y_nvL1 .bgv) c06y_nvCt2 true false = true := by
+  refine c06y_valid_mk (Or.inr ⟨by decide, by decide⟩) (fun k hk => ?_) (rfl : true = true) ⟨by decide, by decide⟩
+  have hk' : k < 2 := hk
+  interval_cases k <;> (unfold RnsCanon; decide)
+
+example : ∃ r, applyGalois nv_kl (c06y_nvL1 .bgv) .bgv c06y_nvCt2 3 nv_kskey = .ok r ∧
+    ctValid (c06y_nvL1 .bgv) r true false = true :=
+  let ⟨r, h, v, _⟩ := applyGalois_valid (c06y_nvL1_wf .bgv) (c06y_nv_keyLevelOf .bgv) c06y_nv_klok (fun _ => c06y_nv_bgvData)
+    c06y_nv_keyok c06y_nvCt2_valid rfl ⟨fun _ h => Scheme.noConfusion h, fun _ => rfl⟩ (g := 3) (by decide) (by decide)
+  ⟨r, h, v⟩
+
+/-! ### Y4: the size bound is enforced by `ctValid` only -/
+
+/-- nine copies of a canonical polynomial: a valid size-9 CKKS ciphertext in the constructor-built world -/
+def c06y_nvBig : Ct := ⟨Array.replicate 9 nv_c0enc, true, 1⟩
+
+theorem c06y_nvBig_valid : ctValid (c06y_nvL .ckks) c06y_nvBig false false = true := by
+  refine c06y_valid_mk (Or.inr ⟨by decide, by decide⟩) (fun k hk => ?_) (rfl : false = false) (rfl : (1 : Nat) = 1)
+  have hk' : k < 9 := by simpa [c06y_nvBig] using hk
+  have e : c06y_nvBig.polys.getD k #[] = nv_c0enc := by simp [c06y_nvBig, Array.getD, hk']
+  rw [e]; exact nv_c0enc_canon
+
+/-- Y4 (model vs code): the product of two VALID size-9 ciphertexts is NOT refused by the model — it returns 17 canonical
+    polynomials, an object `ctValid` rejects.  The Rust code panics in `Ciphertext::resize` ("Size invalid") before computing
+    anything, so the model is more permissive than the code here; validity of the result needs `n1 + n2 − 1 ≤ 16`
+    (`ctMultiplyDyadic_valid`). -/
+theorem ctMultiplyDyadic_oversize_not_refused :
+    ∃ r, ctMultiplyDyadic (c06y_nvL .ckks) c06y_nvBig c06y_nvBig = .ok r ∧ r.polys.size = 17 ∧
+      c05u_CtCanon (c06y_nvL .ckks) r ∧ ctValid (c06y_nvL .ckks) r false false = false := by
+  obtain ⟨r, hr, sr, _, _, cr, hiff⟩ := ctMultiplyDyadic_valid (c06y_nvL_qs .ckks) c06y_nvBig_valid c06y_nvBig_valid rfl rfl
+    (by decide) (by decide)
+  have s9 : c06y_nvBig.polys.size = 9 := by simp [c06y_nvBig]
+  rw [s9] at sr hiff
+  refine ⟨r, hr, sr, cr, ?_⟩
+  cases h : ctValid (c06y_nvL .ckks) r false false
+  · rfl
+  · exact absurd (hiff.mp h) (by decide)
+
+/-! ### `bfv_multiply`: metadata and size (the residues of the BEHZ pipeline are not covered: no end-to-end theorem for it exists) -/
+
+/-- Y4 for `bfv_multiply`: whenever the model succeeds, both operands are non-empty and in coefficient form, the result has
+    `n1 + n2 − 1` polynomials, coefficient form and the correction factor of the first operand -/
+theorem bfvMultiply_shape_of_ok {l : Level} {bsk : Array NTTTables} {a b r : Ct} (hr : bfvMultiply l bsk a b = .ok r) :
+    r.polys.size = a.polys.size + b.polys.size - 1 ∧ 1 ≤ a.polys.size ∧ 1 ≤ b.polys.size ∧ a.ntt = false ∧ b.ntt = false ∧
+      r.ntt = false ∧ r.cf = a.cf := by
+  have hn : a.ntt = false ∧ b.ntt = false := by
+    by_contra h
+    rw [c06y_bfvMultiply_refuse_ntt l bsk a b (by cases ha : a.ntt <;> cases hb : b.ntt <;> simp_all)] at hr
+    cases hr
+  unfold bfvMultiply at hr
+  rw [if_neg (by simp [hn.1, hn.2])] at hr
+  simp only [bind, Except.bind] at hr
+  split at hr
+  · cases hr
+  split at hr
+  · cases hr
+  split at hr
+  · cases hr
+  split at hr
+  · cases hr
+  split at hr
+  · cases hr
+  split at hr
+  · cases hr
+  rename_i hsz _ _ _ _ _ _ _ outs houts
+  simp only [pure, Except.pure, Except.ok.injEq] at hr
+  subst hr
+  have hlen := c06y_mapM_length _ _ _ houts
+  simp only [List.length_range] at hlen
+  exact ⟨by simp [hlen], by omega, by omega, hn.1, hn.2, hn.1, rfl⟩
+
+/-- Y2 for `bfv_multiply`, conditional on the data part: the result of a successful product of a valid first operand is valid iff the
+    size fits and its polynomials are canonical (size, scale and correction factor are handled here; canonicity of the output of
+    `fastbconvSk` is the part that is NOT proved) -/
+theorem bfvMultiply_valid_iff_canon {l : Level} {bsk : Array NTTTables} {a b r : Ct} {s1 s2 : Bool}
+    (ha : ctValid l a s1 s2 = true) (hr : bfvMultiply l bsk a b = .ok r) :
+    ctValid l r s1 s2 = true ↔ a.polys.size + b.polys.size - 1 ≤ 16 ∧ c05u_CtCanon l r := by
+  obtain ⟨sr, h1, h2, _, _, _, fr⟩ := bfvMultiply_shape_of_ok hr
+  have v := c06y_valid_parts ha
+  constructor
+  · intro hv
+    have v' := c06y_valid_parts hv
+    exact ⟨by have := v'.size; have := v.size; omega, v'.canon⟩
+  · rintro ⟨h16, hc⟩
+    exact c06y_valid_mk (by have := v.size; omega) hc v.scale (by rw [fr]; exact v.cf)
+
+/-! ### "accepted by any later operation": a composed pipeline -/
+
+/-- the product of two valid size-2 NTT-form ciphertexts (CKKS, or the dyadic step of BGV) is valid of size 3, is ACCEPTED by
+    `relinearize` with a good key for s², whose result is valid of size 2 and is in turn ACCEPTED by `modSwitchDropNext`, giving a
+    valid ciphertext at the next level — every intermediate object satisfies the hypotheses of the next operation -/
+theorem multiply_relinearize_drop_valid {kl : KeyLevel} {l l' : Level} (hq : c02v_QsWF l) (hk : c06y_KeyLevelOf kl l)
+    (ho : c06y_KLOK kl l.size) (hb : l.scheme = .bgv → c04t_BgvData kl) (hn : c06y_NextLevel l l') (h2 : 2 ≤ l.size)
+    (hs : l.scheme ≠ .bfv) {keys : Nat → Option KSKey} {key : KSKey} (hkey : keys 2 = some key)
+    (hkok : c06y_KeyOK kl l.size key) {a b : Ct} {s1 s2 s1' s2' : Bool} (ha : ctValid l a s1 s2 = true)
+    (hb' : ctValid l b s1' s2' = true) (hna : a.ntt = true) (hnb : b.ntt = true) (sa : a.polys.size = 2)
+    (sb : b.polys.size = 2) :
+    ∃ c r d, ctMultiplyDyadic l a b = .ok c ∧ ctValid l c s1 s2 = true ∧ c.polys.size = 3 ∧
+      relinearize kl l.scheme l.size keys 2 c = .ok r ∧ ctValid l r s1 s2 = true ∧ r.polys.size = 2 ∧
+      modSwitchDropNext l r = .ok d ∧ ctValid l' d s1 s2 = true ∧ d.polys.size = 2 ∧ d.cf = a.cf := by
+  obtain ⟨c, hc, sc, nc, fc, _, hvc⟩ := ctMultiplyDyadic_valid hq ha hb' hna hnb (by omega) (by omega)
+  rw [sa, sb] at sc hvc
+  have vc := hvc.mpr (by decide)
+  obtain ⟨r, hr, vr, sr, nr, fr⟩ := relinearize_valid hk ho hb keys 2 c vc (by omega) (by omega)
+    (fun _ => ⟨fun _ => hs, fun _ => nc⟩)
+    (fun m h1 h2' => by
+      have : m = 2 := by omega
+      subst this
+      exact ⟨key, hkey, hkok⟩)
+  obtain ⟨d, hd, vd, sd, _, fd⟩ := modSwitchDropNext_valid hn h2 vr (fun _ => by rw [nr, nc])
+  exact ⟨c, r, d, hc, vc, sc, hr, vr, sr, hd, vd, by rw [sd, sr], by rw [fd, fr, fc]⟩
 
 end HC
